@@ -5,7 +5,8 @@ Every public generator of mouette.procedural is called on every admissible param
 every combination of the boolean switches, ring defects, covers).  The returned mesh is handed to an
 oracle that is written from the property statement and shares no code with the library:
 
-  structural chain (stops at the first broken link, orientation excepted, so one defect = one report)
+  structural chain (stops at the first broken link, orientation excepted: one report per mesh, and a finding on an
+  early link never hides a later clause on the meshes that pass the early link)
       C14.valid.indices_in_range     every face index in [0, #vertices)
       C14.valid.well_formed_faces    every face has >= 3 pairwise distinct vertices
       C14.valid.manifold             every edge in <= 2 faces, faces around a vertex form ONE fan
@@ -38,6 +39,9 @@ ASSUMPTIONS = [
     "defect with the generator's own bisection stop criterion 1e-6 (x2 for rounding)",
     "sphere_fibonacci uses qhull with the 'QJ' joggle: only seed-independent facts (topology, counts, radius) are asserted",
     "spherify_vertices with n_subdiv=0: the radius clause is not asserted (it is icosphere(0), reported under icosphere)",
+    "unit_triangle: vertex positions are not examined on outputs whose faces already index outside the vertex list "
+    "(counted as geometry_not_examined_on_structurally_broken_mesh)",
+    "ring / flat_ring with n_cover = k: 'requested defect' is read per covering, i.e. sum of apex angles = k (2 pi - defect)",
     "a VolumeMesh result (volume=True) is checked for type, cells, indices and an unoriented closed boundary; the "
     "orientation of the faces of a volume mesh is not part of the statement",
 ]
@@ -981,7 +985,7 @@ def enum_ring(tier):
     return [{"N": n, "defect": d, "open": o, "n_cover": c} for n in _res(tier) for d in _defects(tier) for o in BOOLS for c in covers]
 
 
-def _fan_checks(cx, m, icls, n_tri, nv_want, defect, n_cover, tol_defect, apex_interior):
+def _fan_checks(cx, m, icls, n_tri, nv_want, defect, n_cover, tol_defect, apex_interior, icls_geom):
     res = cx.structural(m, icls, "disk")
     cx.counts(m, icls, nv=nv_want, nf=n_tri)
     cx.arity(res["faces"], 3, icls, "counts.face_arity")
@@ -1006,7 +1010,7 @@ def _fan_checks(cx, m, icls, n_tri, nv_want, defect, n_cover, tol_defect, apex_i
         total += angle_at(P, apex, f[(i + 1) % 3], f[(i + 2) % 3])
     got = 2 * PI - total / n_cover
     if abs(got - defect) > tol_defect:
-        cx.bad("geometry.angle_defect", "mismatch:apex_defect", icls, want_defect=defect, got_defect_per_cover=got,
+        cx.bad("geometry.angle_defect", "mismatch:apex_defect", icls_geom, want_defect=defect, got_defect_per_cover=got,
                sum_of_apex_angles=total, n_cover=n_cover)
     return P, apex
 
@@ -1019,7 +1023,7 @@ def check_ring(M, p, rep):
     if m is None or not cx.expect_type(m, "SurfaceMesh", icls):
         return
     rep.flag(f"open={p['open']}")
-    _fan_checks(cx, m, icls, N * c, N * c + 1 + (1 if p["open"] else 0), p["defect"], c, 2e-6, not p["open"])
+    _fan_checks(cx, m, icls, N * c, N * c + 1 + (1 if p["open"] else 0), p["defect"], c, 2e-6, not p["open"], "ring")
 
 
 def enum_flat_ring(tier):
@@ -1035,7 +1039,7 @@ def check_flat_ring(M, p, rep):
     m = run_generator(cx, M.procedural.flat_ring, icls, N, p["defect"], c)
     if m is None or not cx.expect_type(m, "SurfaceMesh", icls):
         return
-    P, apex = _fan_checks(cx, m, icls, N * c, N * c + 2, p["defect"], c, 1e-9, None)
+    P, apex = _fan_checks(cx, m, icls, N * c, N * c + 2, p["defect"], c, 1e-9, None, "flat_ring")
     if P is not None:
         cx.ev()
         if float(np.abs(P[:, 2]).max()) > TOL:
@@ -1220,7 +1224,7 @@ def check_vector_field(M, p, rep):
     np = _np()
     cx = Cx(rep, "vector_field", p)
     n, K = p["n"], p["K"]
-    icls = f"vector_field:K={K}"
+    icls = "vector_field:K=3" if K == 3 else "vector_field:K<3"
     O = np.array([[float((2 * i + 3 * k) % 5) for k in range(K)] for i in range(n)], float)
     W = np.array([[float(1 + (i + 2 * k) % 3) * (-1) ** (i + k) for k in range(K)] for i in range(n)], float)
     m = run_generator(cx, M.procedural.vector_field, icls, O.copy(), W.copy(), p["mult"])
@@ -1375,7 +1379,7 @@ def tasks(tier):
     for name, (enum, _chk, batch) in GENERATORS.items():
         cases = enum(tier)
         for i in range(0, len(cases), batch):
-            out.append({"gen": name, "cases": cases[i:i + batch]})
+            out.append({"gen": name, "first_batch": i == 0, "cases": cases[i:i + batch]})
     return out
 
 
@@ -1387,7 +1391,7 @@ def run_task(task, rep: Report):
     for p in task["cases"]:
         rep.count("cases:" + task["gen"])
         chk(M, p, rep)
-        if len(rep.samples) < 1 and task["gen"] in ("torus", "unit_grid", "ring", "cylinder"):
+        if task.get("first_batch") and p is task["cases"][-1] and task["gen"] in ("cylinder", "torus", "unit_grid", "ring"):
             rep.sample({"generator": task["gen"], "params": p})
 
 
